@@ -155,6 +155,8 @@ def main(run):
                            "edit": desc, "go_build_succeeded": built, "build_errors": batch.extra_errs.get(d),
                            "commands": [" ".join(["shoot"] + a) for a, _ in spec.runs],
                            "sources_at_generation": eg.render_go(spec), "sources_edited": eg.render_go(s2),
+                           "job": [j for j in batch.jobs if j["name"] == spec.name][0],
+                           "coq_stale_case": [er.coq_stale_case(spec, s2, True), er.coq_stale_case(spec, s2, False)],
                            "how": "generate with the commands on sources_at_generation, replace the sources by "
                                   "sources_edited without regenerating, go build"},
                           no_input=(v != 2))
@@ -251,6 +253,20 @@ def replay(run, path):
     batch.add(job)
     batch.generate(shoot)
     batch.build_and_run()
+    if r.get("sources_edited"):
+        d = job["name"] + "s"
+        er.l2.write_files(batch.mod / d, r["sources_edited"])
+        batch.copy_generated(job["name"], d)
+        batch.extra_dirs[d] = {}
+        batch.build_extra()
+        built = d not in batch.extra_errs
+        m = er.coq_mismatches(run, "stale_mismatches", [r["coq_stale_case"][0 if built else 1]], "c04sreplay",
+                              ctype="stale_case")
+        print("edit:", r.get("edit"), "go build succeeded:", built, "errors:", batch.extra_errs.get(d), "verdict:", m)
+        if m:
+            print("VIOLATION property=C04 replay=%s" % path)
+            return 1
+        return 0
     rows = batch.coq_cases(only_compare=False)
     rows = [x for x in rows if x[1]["type"] == r.get("type")] or rows
     m = er.coq_mismatches(run, "mismatches04", [x[2] for x in rows], "c04replay")
